@@ -20,8 +20,26 @@ import os, sys, json, sqlite3, shutil, tempfile, hashlib
 from proto import TICKS, ABSENT, hx, tok_val, ticks_of, frame_line, welcome_json
 
 
-class Crash(Exception):
+class Crash(BaseException):
+    """the simulated kill; a BaseException so that `except Exception` in the code under
+    test (expire) cannot swallow it"""
     pass
+
+
+_LOGGING_SILENCED = False
+
+
+def _silence_twisted_logging():
+    """Before logging is started Twisted prints every logged failure to stderr."""
+    global _LOGGING_SILENCED
+    if _LOGGING_SILENCED:
+        return
+    _LOGGING_SILENCED = True
+    try:
+        from twisted.logger import globalLogBeginner
+        globalLogBeginner.beginLoggingTo([lambda ev: None], redirectStandardIO=False, discardBuffer=True)
+    except Exception:
+        pass
 
 
 class _Time(object):
@@ -130,6 +148,7 @@ class RecDB(object):
                 r.event("C " + self._which)
                 r.ncommit += 1
                 if r.crash_at is not None and r.ncommit == r.crash_at:
+                    r.crash_raised = True
                     raise Crash()
         else:
             self._conn.commit()
@@ -173,6 +192,7 @@ class Runner(object):
         self.chan = self.usage = None
         self.down = True
         self.pending_crash = None
+        self.crash_raised = False
         self.sweep_args = []
         self.logged_errors = []
         self._install()
@@ -206,6 +226,7 @@ class Runner(object):
         server_tap.create_or_upgrade_usage_db = cu
         self._observer = self._log_observer
         log.addObserver(self._observer)
+        _silence_twisted_logging()
 
     def close(self):
         from twisted.python import log
@@ -223,7 +244,11 @@ class Runner(object):
     def _log_observer(self, ev):
         if ev.get("isError"):
             f = ev.get("failure")
-            self.logged_errors.append(f.type.__name__ if f is not None else "unknown")
+            cls = f.type.__name__ if f is not None else "unknown"
+            if cls == "Crash":
+                return
+            self.logged_errors.append(cls)
+            self.event("X - %s" % cls)
 
     def _gen_id(self):
         self.note("genid", 1)
@@ -342,16 +367,25 @@ class Runner(object):
         return out
 
     def _synced(self):
-        pend = self.chan._conn.in_transaction or (self.usage is not None and self.usage._conn.in_transaction)
-        if not self.reader:
-            return not pend
-        mine = raw_dump(self.chan._conn, "chan")
-        if self.usage is not None:
-            mine += raw_dump(self.usage._conn, "usage")
-        mine.sort()
-        same = (mine == self.reader_dump())
-        if same and pend:
-            self.note("pending-but-equal", 1)
+        """does the committed state equal the state the server's connections see?"""
+        same = True
+        for db in (self.chan, self.usage):
+            if db is None:
+                continue
+            if db._conn.in_transaction:
+                if raw_dump(db._conn, db._which) != db._last:
+                    same = False
+                else:
+                    self.note("pending-but-equal", 1)
+        if self.reader:
+            # an independent reader of the files must see what the server sees
+            mine = raw_dump(self.chan._conn, "chan")
+            if self.usage is not None:
+                mine += raw_dump(self.usage._conn, "usage")
+            mine.sort()
+            if (mine == self.reader_dump()) != same:
+                self.event("!reader-disagrees-with-commit-tracking")
+                same = False
         return same
 
     # ---- operations ----------------------------------------------------------------
@@ -388,6 +422,7 @@ class Runner(object):
         crash_k = self.pending_crash
         self.pending_crash = None
         self.ncommit = 0
+        self.crash_raised = False
         self.crash_at = crash_k if (crash_k is not None and crash_k > 0) else None
         if crash_k == 0:
             self._teardown()
@@ -484,6 +519,9 @@ class Runner(object):
                         self.clock.advance(self.now - self.clock.seconds())
                 except Crash:
                     raise
+                if self.crash_raised:
+                    # LoopingCall turns every exception into a Failure; the kill is ours
+                    raise Crash()
                 fired = len(self.sweep_args) - before
                 if fired != 1 and not (op.get("fault") and fired == 0):
                     self.event("!timer-fired %d" % fired)
@@ -499,8 +537,6 @@ class Runner(object):
                 except Exception as e:
                     self.event("X - escaped:%s" % type(e).__name__)
             self.fault_next = False
-            for cls in self.logged_errors[nerr:]:
-                self.event("X - %s" % cls)
         elif k == "restart":
             self._teardown()
             self._startup(op["t"])
